@@ -93,6 +93,7 @@ macro "pf_at" : tactic => `(tactic|
     | with_reducible apply PFAt.bind_get
     | ((with_reducible apply PFAt.bind_modify) <;> first | rfl | skip)
     | with_reducible apply PFAt.bind_diag (by diag_leaf)
+    | with_reducible apply PFAt.bind
     | split
     | dsimp only))
 
